@@ -12,7 +12,7 @@
                         ignored), [balance l] the negamax value with optional stopping. *)
 From Coq Require Import NArith ZArith List Bool.
 From Chess3 Require Import Base.Bits Base.Word Model.Types Model.BoardDef Model.Board Gen.SeeConsts
-  Model.See Spec.SeeSpec Proofs.SeeCore Proofs.SeeSeq Proofs.SeeGeom Proofs.SeeJudge.
+  Model.See Spec.SeeSpec Proofs.SeeCore Proofs.SeeSeq Proofs.SeeGeom Proofs.SeeJudge Model.SeeT Spec.SeeSpecT Proofs.SeeTable.
 Import ListNotations.
 Open Scope Z_scope.
 
@@ -101,6 +101,18 @@ Theorem C18_domain_checks : forall b m,
   (wf_boardb b = true -> wf_board b) /\ (Model.SeeStreams.move_okb b m = true -> move_ok b m).
 Proof. intros b m. split; [apply wf_boardb_ok|apply move_okb_ok]. Qed.
 Print Assumptions C18_domain_checks.
+
+(* the table-parametric model and specification used by the c18 stream (configuration mode: other
+   values in the exported heur.PieceValues), taken at the table of the source, are the model and the
+   specification of the theorems above *)
+Theorem C18_table_instance : forall b m t choice,
+  Model.SeeT.see_t PieceValues b m t = see b m t /\
+  Spec.SeeSpecT.swap_list_t PieceValues b m choice = swap_list b m choice /\
+  Spec.SeeSpecT.all_balances_t PieceValues b m = all_balances b m.
+Proof.
+  intros. split; [apply see_t_default|]. split; [apply swap_list_t_default|apply all_balances_t_default].
+Qed.
+Print Assumptions C18_table_instance.
 
 (* non-vacuity on a board: 8/3k4/7B/2qqRRPR/5P1n/8/6B1/1K6 b - - 0 1, Qd5xe5 (queen takes rook, pawn
    takes queen, the second queen takes the pawn and is taken by the rook behind: black stops at -400) *)
